@@ -277,7 +277,8 @@ def showFile (cfg : ReadCfg) (ls : List Line) : String :=
   | none => s!"parse=0|ncols={ncols}"
   | some r =>
     s!"parse=1|ncols={ncols}|valid={b01 (swcValidB r.nodes)}|rows={showRows r.nodes}|props={showProps r.props}" ++
-    s!"|soma={showOptInt r.soma}|conns={",".intercalate (r.conns.map fun c => s!"{c.1}:{c.2}")}|nhdr={(headerOf ls).length}"
+    s!"|soma={showOptInt r.soma}|conns={",".intercalate (r.conns.map fun c => s!"{c.1}:{c.2}")}|nhdr={(headerOf ls).length}" ++
+    s!"|labint={b01 (rows.all fun ts => match ts with | _ :: (.int _) :: _ => true | _ => false)}"
 
 def splitN (s : String) (n : Nat) : List String :=
   -- split at the first `n` bars only
